@@ -8,6 +8,14 @@ LEVEL_NOTE = ("Seeded search, not proof: a clean batch is evidence for the runs 
               "engine checks the external dsharp/maxsatz binaries shipped with the repository, which run as real code.")
 
 CLAIMED = {
+ "C22": dict(
+    technique="deterministic simulation: PRNG seam with recording uniform draws (seeded, adversarial values), engine reuse history, virtual alarm inside sample()/estimate(); oracle = independent possible-world enumerator + Hoeffding bound",
+    text="Inside problog.tasks.sample the PRNG is the simulator's: every uniform draw records the comparison made with it, so sequential annotated-disjunction sampling is checked "
+         "draw by draw (threshold p_i/(1-rejected mass)), the printed probability must equal the product of the recorded outcomes, every accepted sample must be a positive-probability "
+         "world satisfying the evidence and every rejected attempt must violate it (all ground atoms of the cone are queried, so a sample fixes a world), an attempt replayed on a fresh "
+         "engine from the captured PRNG state must be identical (engine reuse leaks nothing), frequencies and estimate() must lie within the Hoeffding radius (false alarm < 1e-9 per query) "
+         "of the exact conditional probability, and samples yielded before a virtual-alarm interrupt must still be valid. Both propagate_evidence settings. Exploration level.",
+    design_ref="DESIGN.md §5 C22", quick_t=900, thorough_t=3600),
  "C23": dict(
     technique="deterministic simulation: virtual alarm (line-count clock via sys.settrace) interrupting the anytime k-best evaluator at seeded simulated times; oracle = independent possible-world enumerator",
     text="The interval answer of the k-best evaluator exists only under interruption, so a simulated clock (count of source lines executed in problog/) raises the same "
